@@ -19,6 +19,12 @@ def builds_needed(tier):
     return ["rel"]
 
 
+# Own corpus re-run on other builds of the crate (mc/core.py: extra builds). Every observation is compared with the same model.
+def extra_builds(tier):
+    return [("relchk", None)]
+
+
+
 def bounds(tier):
     return {"u8_pairs": 65536, "u64_values": len(s64()), "array_lengths": "0..=40", "swap_set_N": [1, 4, 5, 10]}
 
